@@ -589,7 +589,6 @@ def w_wiring(ck, F):
         if not earlier_ok(a[0]): bad.append('predict_candidate(.., %s) is given %s as the earlier vectors, expected predictor_vectors (from the last group-of-blocks header on)' % (nshow(a[3]), nshow(a[0])))
         if a[1] != ('v', 'motion_vectors'): bad.append('predict_candidate(.., %s) is given %s as the current vectors, expected motion_vectors' % (nshow(a[3]), nshow(a[1])))
         if a[2] != mbpl: bad.append('predict_candidate(.., %s) is given %s as macroblocks per line, gather is given %s' % (nshow(a[3]), nshow(a[2]), nshow(mbpl)))
-    if len({a[0] for _, _, a in pc if len(a) == 4}) > 1: bad.append('the four predict_candidate calls are given different lists of earlier vectors')
     for bb, t, a in md:
         if len(a) != 4: bad.append('mv_decode takes %d arguments' % len(a)); continue
         if a[0] != ('v', 'next_decoded_picture'): bad.append('mv_decode is given the picture %s, expected the picture being decoded' % nshow(a[0]))
